@@ -1214,6 +1214,36 @@ class LiveOracle:
         self.mem: Dict[int, float] = {}
         self.checked = 0
         self.problems: List[str] = []
+        self.sent: Dict[int, List[int]] = {}  # web server object -> status codes of the HTTP responses it SENT in this step
+        self.sent_checked = 0
+
+    def __enter__(self):
+        """Independent account of "the responses of THIS step": every HTTP response a web server hands to `send` is recorded
+        (in-process wrapper on `WebServer.send`, removed on exit); `begin_step` empties the record."""
+        from primaite.simulator.system.services.web_server.web_server import WebServer
+        self._ws = WebServer
+        self._had_own = "send" in WebServer.__dict__
+        orig = WebServer.send
+        oracle = self
+
+        def send(self_, *a, **k):
+            payload = k.get("payload", a[0] if a else None)
+            code = getattr(payload, "status_code", None)
+            if code is not None:
+                oracle.sent.setdefault(id(self_), []).append(int(getattr(code, "value", code)))
+            return orig(self_, *a, **k)
+        self._orig_send = orig
+        WebServer.send = send
+        return self
+
+    def __exit__(self, *a):
+        if self._had_own:
+            self._ws.send = self._orig_send
+        else:
+            del self._ws.send
+
+    def begin_step(self):
+        self.sent.clear()
 
     @staticmethod
     def _last(objs, name_of, name):
@@ -1243,6 +1273,11 @@ class LiveOracle:
             if sv is None:
                 return 0.0  # memory untouched
             codes = [c.value for c in getattr(sv, "response_codes_this_timestep", [])]
+            if hasattr(sv, "response_codes_this_timestep"):
+                self.sent_checked += 1
+                if codes != self.sent.get(id(sv), []) and len(self.problems) < 3:
+                    self.problems.append(f"web server {dc['node']}/{dc['service']}: response_codes_this_timestep is {codes} at the end of the "
+                                         f"step but the responses it sent during this step were {self.sent.get(id(sv), [])}")
             if codes:
                 v = sum(1.0 if c == 200 else -1.0 if c == 404 else 0.0 for c in codes) / len(codes)
             else:
@@ -1364,7 +1399,7 @@ def run_env(case: dict) -> Tuple[List[str], dict]:
     reset_at = set(case.get("reset_at", []))
     full_at = set(case.get("full_state_at", [1]))
     try:
-        with GraphTap() as tap, CalcTap() as ctap:
+        with GraphTap() as tap, CalcTap() as ctap, live:
             env = None
             if n_proxies == 1:
                 env = PrimaiteGymEnv(env_config=cfg)
@@ -1383,6 +1418,7 @@ def run_env(case: dict) -> Tuple[List[str], dict]:
                 env.action_space.seed(case["seed"])
             for k in range(case["n_steps"]):
                 n_before = len(states)
+                live.begin_step()
                 try:
                     if env is not None:
                         _obs, rew, _term, _trunc, _info = env.step(env.action_space.sample())
